@@ -13,7 +13,7 @@ from ..lin import Facts
 from .. import astq
 
 SPLIT = "sktime/forecasting/model_selection/_split.py"
-RULES = ("R1", "R2", "R3", "R4", "R5")
+RULES = ("R1", "R2", "R3", "R4", "R5", "R6")
 
 N = Lin.sym("n")
 W = Lin.sym("w")
@@ -100,6 +100,9 @@ def is_free(lin):
 
 def prove_le(ctx, rule, construct, facts, lhs, rhs, what, loc):
     """Obligation lhs <= rhs under ``facts``."""
+    if lhs is None or rhs is None:
+        undecided(ctx, rule, construct, "%s: operand has no affine form (negated / uninterpretable vector)" % what, loc)
+        return False
     L = lhs - rhs
     pr = facts.entails(L)
     if pr is not None:
@@ -327,6 +330,8 @@ def check_window_class(ctx, repo, cname):
                       "test = fh + (%r) = cutoff + fh" % cutoff,
                       "test = %r but cutoff (last training position) = %r" % (test, cutoff), loc,
                       witness={"test_offset": repr(test.off), "cutoff": repr(cutoff)})
+            if test.neg:
+                continue  # reported above; a negated horizon has no ordered ends to bound
             length = train.hi - train.lo
             if kind == "initial":
                 eq(ctx, "R1", c + ":length", length, IW, "initial window length", loc)
@@ -562,13 +567,15 @@ def check_single(ctx, repo):
         ctx.ok("R1", tag + ":contiguous", "train = %r" % train, loc)
         ctx.check(test.base == "fh" and not test.neg and test.off == cutoff, "R1", tag + ":test", "test = cutoff + fh",
                   "test = %r but cutoff = %r" % (test, cutoff), loc)
+        if test.neg:
+            continue
         if isinstance(wl, K):
             eq(ctx, "R1", tag + ":start", train.lo, Lin.c(0), "window start (no window length: all history)", loc)
         else:
             eq(ctx, "R1", tag + ":length", train.hi - train.lo, W, "window length", loc)
         f = rec.facts
         prove_le(ctx, "R3", tag + ":test<=n-1", f, test.elem("last"), N - 1, "last test position inside series", loc)
-        ctx.check(test.elem("last") == N - 1, "R2", tag + ":last-window", "the single window is the last feasible one",
+        ctx.check(test.elem("last") is not None and test.elem("last") == N - 1, "R2", tag + ":last-window", "the single window is the last feasible one",
                   "last test position is %r, not n-1" % test.elem("last"), loc)
         prove_le(ctx, "R3", tag + ":no-leak", f, train.hi, test.elem("first"), "last training position < first test position", loc)
         it2 = make_interp(repo)
@@ -751,6 +758,42 @@ def check_stateless(ctx, repo):
                       ctx.loc(cls.module, (stores[0][2] if stores else (dyn[0] if dyn else fn))))
 
 
+def check_models(ctx, repo):
+    """R6 -- conformance of the helpers the interpreter *models* instead of inlining (hooks / no_inline):
+    ``_check_y`` / ``check_time_index`` hand back the index of ``y`` one-to-one (so ``len`` is the series length
+    and positions are positions of ``y``), ``_check_fh`` hands back a relative horizon unchanged and
+    ``fh.to_indexer()`` of a relative horizon is ``steps - 1`` whether or not a cutoff is known."""
+    from .. import passthru
+    from . import c02 as _c02
+    mod = repo.module(SPLIT)
+    passthru.decide(ctx, "R6", "_check_y:returns-index-of-y", repo, mod, repo.func(SPLIT, "_check_y"), "y",
+                    "_check_y (input of every split/get_cutoffs/get_n_splits)")
+    smod = repo.module("sktime/utils/validation/series.py")
+    passthru.decide(ctx, "R6", "check_time_index:returns-index", repo, smod, repo.func(smod.relpath, "check_time_index"),
+                    repo.func(smod.relpath, "check_time_index").args.args[0].arg, "check_time_index")
+    it = _c02.new_interp(repo)
+    fhmod = repo.module(_c02.FH_PATH)
+    me = _c02.fh_obj(it, 0, True)
+    for tag, extra in (("no-cutoff", {}), ("cutoff=None", {"cutoff": K(None)})):
+        rets, _, k, fn = _c02.call(repo, it, me, "to_indexer", **extra)
+        _c02.judge(ctx, "R6", "ForecastingHorizon.to_indexer[relative,%s]" % tag, rets, _c02.STEPS.shift(-1), _c02.wf_vec,
+                   ctx.loc(fhmod, fn), "fh.to_indexer() as used by the splitters (zero-based offsets from the cutoff: steps - 1)")
+    # _check_fh: a relative horizon comes back unchanged
+    it = _c02.new_interp(repo)
+    me = it.make_fh(_c02.STEPS, True)
+    fn = repo.func(SPLIT, "_check_fh")
+    rets, raises, _ = _c02.irun(it, mod, fn, {fn.args.args[0].arg: me})
+    vals = _c02.distinct([v for _, v in rets])
+    loc = ctx.loc(mod, fn)
+    if not vals:
+        ctx.violation("R6", "_check_fh:relative-horizon-unchanged", "a valid relative horizon is rejected on every path", loc)
+    elif not all(it.is_fh(v) for v in vals):
+        ctx.undecided("R6", "_check_fh:relative-horizon-unchanged", "result not interpretable: %r" % (vals,), loc)
+    else:
+        ctx.check(all(v == me for v in vals), "R6", "_check_fh:relative-horizon-unchanged", "horizon returned unchanged",
+                  "horizon is changed: %r -> %r" % (me, vals), loc)
+
+
 def run(ctx):
     repo = ctx.repo
     del INTERPS[:]
@@ -765,6 +808,7 @@ def run(ctx):
     check_single(ctx, repo)
     check_tts(ctx, repo)
     check_stateless(ctx, repo)
+    check_models(ctx, repo)
     # no in-place augmented assignment on array-like values (parameters, horizons, cutoffs): a second call would see the change
     seen_ip = set()
     for it_ in INTERPS:
@@ -784,3 +828,4 @@ def run(ctx):
     ctx.floor("R3", 20)
     ctx.floor("R4", 30)
     ctx.floor("R5", 10)
+    ctx.floor("R6", 5)
